@@ -40,7 +40,7 @@ def classify(apdu: bytes) -> str:
 
 
 def generate(rng, tier):
-    reps = 1 if tier == "quick" else 4
+    reps = 2 if tier == "quick" else 12
     valid = [a for a in VALID if classify(unhx(a)) == "ok"]
     assert len(valid) >= 8, valid
     for apdu in valid:
